@@ -64,6 +64,19 @@ STRESS = [
     "multiclass SM<int x> { def NAME; } defm sm1 : SM<\"\u00df\" = 1>; defm sm2 : SM<\"\U0001F600\" = 1, \"x\" = 2>;",
 ]
 
+# inputs that reach code regions nothing else reached in the coverage study (error exits of the width helpers, operator
+# calls without operands, declarations whose type is not a type, names that are not names)
+STRESS += [
+    "class A { bits<> x; } class C { bits<1> x = { 0b }; bits<2> y = { 0b, 0b1 }; }",
+    "class A { field 1 x; field int y; } defset 1 s = {} class B<1 x>;",
+    "defvar a = !foreach(); defvar b = !subst(); defvar c = !foldl(); defvar d = !filter(); defvar l = !filter(x, [1, 2], !eq(x, 1));",
+    "class A { bits<4> f; let f{0...9223372036854775807, 0...9223372036854775807, 0...1} = 0; let f{} = 0; let f{1-} = 0; let f{18446744073709551615} = 1; }",
+    "multiclass M { def a; } defm x : M, ; multiclass N { defm y : M, ; } class C<int x>; defm dm : M, C<1 = 2>;",
+    "class A<int x, int y = 0>; def d : A<x = 1, x = 2>; def e : A<y = 1>; def f : A<1, 2, 3>;",
+    "class Base { int v = 0; } class A : Base; class B : Base; class Z; def a : A; def b : B; def z : Z; defvar x = !if(1, a, b); defvar y = x.v; "
+    "defvar w = !if(1, a, z); defvar l = !listconcat([a], [b]); defvar m = !if(1, [a], [b]); defvar n = !listconcat([A<>], [Base<>]);",
+]
+
 WIDE = ["// é\n", "/* 😀 \r\n ü */", "\r\n", "// \U000F0001\r", "def w1 { string s = \"größe\U0001F600\"; }\r\n", " ", "\x0c"]
 
 
